@@ -144,6 +144,7 @@ func c03CheckImage(r *simcore.Run, e *storeEnv, tr *simcore.Trace, k int, mode s
 	e2 := newStoreEnv(r, e.cfg, dst)
 	e2.led, e2.attempts, e2.maxAcked = e.led, e.attempts, e.maxAcked
 	e2.crashDepth = depth
+	e2.lossyFirstCrash = e.lossyFirstCrash
 	e2.valueOptionalFrom = maxAcked + 1
 	e2.optLo, e2.optHi = e.optLo, e.optHi
 	if err := e2.open(); err != nil {
@@ -219,6 +220,7 @@ func c03CheckImage(r *simcore.Run, e *storeEnv, tr *simcore.Trace, k int, mode s
 		e3 := newStoreEnv(r, e.cfg, "")
 		e3.led, e3.maxAcked, e3.attempts = e2.led, e2.maxAcked, e.attempts
 		e3.optLo, e3.optHi = e2.valueOptionalFrom, n
+		e3.lossyFirstCrash = e.lossyFirstCrash || st.Dropped > 0 || st.Torn > 0
 		c03CheckImage(r, e3, tr2, k2, mode2, slot, depth+1, maxAcked)
 	}
 }
